@@ -274,6 +274,7 @@ class C11(Campaign):
     quick_runs = 3000
     thorough_runs = 60000
     fault_kinds = ["restart@op (new machine over the surviving model)", "restart-after-failed-transition",
+                   "raise@initial-activation (sync constructor / deferred async activation), then restart + re-activation",
                    "re-activation (any number)", "concurrent activation (two tasks)",
                    "first events from two tasks at once", "nested send from the initial enter callback",
                    "start_value on restart"]
@@ -342,6 +343,32 @@ class C11(Campaign):
         for c in sc["gv"]:
             while len(sc["gv"][c]) < n:
                 sc["gv"][c].append(rnd.getrandbits(len(prog["states"])))
+        # a failing initial activation: the exception reaches the caller, the initial state is already
+        # stored (enter => target), and activating / resuming afterwards runs nothing again
+        enters = sorted(c for c, m_ in prog["cbs"].items() if m_["group"] == "enter")
+        if enters and rnd.random() < 0.2:
+            c = rnd.choice(enters)
+            ep = 0
+            if is_async:
+                ep = next((i for i, o in enumerate(out) if i > 0 and o["op"] in ("send", "activate", "send2",
+                                                                                 "activate2")), 1)
+            sc["beh"].setdefault(f"{prog['name']}/{c}", []).insert(
+                0, {"ep": ep, "j": 0, "dp": 0, "raise": rnd.choice(["SimFault", "SimBaseFault"]), "_fault": True})
+            sc["activation_fault"] = True
+            # make sure something follows: a restart over the surviving model and a re-activation
+            n2 = dict(first)
+            n2["keep_model"] = True
+            n2.pop("start_value", None)
+            sc["ops"] = out[:ep + 1] + [{"op": "activate", "inst": "A"}, n2, {"op": "activate", "inst": "A"}] \
+                + out[ep + 1:]
+            n = len(sc["ops"])
+            for g_ in sc["gv"].values():
+                while len(g_) < n:
+                    g_.append(g_[-1])
+            for c2, rules in sc["beh"].items():
+                for r_ in rules:
+                    if r_.get("ep") is not None and r_["ep"] > ep and not r_.get("_fault"):
+                        r_["ep"] += 3
         return sc
 
     # which ops are C11's
@@ -427,6 +454,8 @@ class C11(Campaign):
                 c["fault.restart_after_failed_op"] = c.get("fault.restart_after_failed_op", 0) + 1
         m = ev["mstats"]
         c["probe.initial_activations"] = m.get("initial_execs", 0)
+        if sc.get("activation_fault") and ev["res"]["stats"].get("raises"):
+            c["fault.raise@initial-activation"] = 1
         return c
 
     def signature(self, v, sc):
